@@ -343,6 +343,10 @@ func (w *World) genDevice(stream string, maxBytes int) kernel.DevCfg {
 		}
 	}
 	cfg.Chunks = w.genChunks(stream)
+	if w.t.Chance(stream, "dev.std", 1, 6) {
+		cfg.Std = 1 + w.t.Choose(stream, "dev.stdkind", kernel.StdKinds-1)
+		w.r.Fault("device_presented_as_a_standard_library_reader")
+	}
 	if w.t.Chance(stream, "dev.helper", 1, 12) {
 		cfg.Helper = true
 		w.r.Fault("buffer_filled_by_helper_goroutine_while_the_callers_stack_moves")
